@@ -49,9 +49,9 @@ func dirFingerprint(dir string) string {
 
 func main() {
 	run := ev.Start("C14", "exploration")
-	run.Rule("fault-free default-option copies of seeded graphs with arbitrary layer sharing, over every pairing and target pre-state (subsets of blobs / sub-images pre-existing, stale tag, complete), mount granted / declined / refused, latency jitter; " +
+	run.Rule("default-option copies of seeded graphs with arbitrary layer sharing, over every pairing and target pre-state (subsets of blobs / sub-images pre-existing, stale tag, complete), mount granted / declined / refused, latency jitter; fault-free except for every fifth case, which has one transient retryable fault (429/500/502/504/408/reset) on one blob HEAD at the target; " +
 		"judged on the model registries' request logs; non-trivial = the copy succeeded and at least one of the minimality clauses was applicable (shared blob, pre-existing blob, mount, retag, identical target); distinct = case shape classes")
-	run.Assume("only fault-free runs with default options are judged (a retry legitimately re-downloads)", "layout sides are observed at the registry end and by a before/after directory fingerprint",
+	run.Assume("runs with default options; no fault ever hits a transfer itself (a retried download legitimately repeats), the only fault injected is a single transient one on an existence probe, which the client absorbs by repeating the probe", "layout sides are observed at the registry end and by a before/after directory fingerprint",
 		"a blob GET counts as a download when it was answered 200 with a body; HEAD requests and failed probes are free")
 	rng := ev.Rand("c14")
 	n := ev.Scale(1200, 16000)
@@ -70,16 +70,40 @@ func main() {
 		case 3:
 			c.Pre = "partial"
 			c.Shape.Share = true
+		case 5:
+			// one blob wanted by many goroutines of the copy at the same instant
+			c.Shape.DupLayer, c.Shape.DupTimes = true, 3+rng.Intn(6)
+			c.Shape.Share = true
+			if c.Pre == "complete" || c.Pre == "tagged-incomplete" {
+				c.Pre = "empty"
+			}
 		}
 		if c.Pair == "dir2dir" {
 			c.Pair = "reg2dir"
 		}
 		var preFP string
+		// one transient, retryable fault on one of the target's existence probes (blob HEAD): fewer than the
+		// retry limit, so the probe is repeated and its answer, not the fault, decides about the transfer
+		probeFault := ""
+		if i%5 == 4 && c.Pair != "same-repo" && !strings.HasSuffix(c.Pair, "2dir") {
+			probeFault = []string{"status:429", "status:500", "status:502", "status:504", "status:408", "reset"}[rng.Intn(6)]
+		}
+		at := 1 + rng.Intn(4)
+		var plan *modelreg.Plan
 		r := copyeng.Run(c, copyeng.RunOpts{Prepare: func(r *copyeng.Result) {
 			if r.Tgt.IsDir() {
 				preFP = dirFingerprint(r.Tgt.Dir)
 			}
+			if probeFault != "" && !r.Tgt.IsDir() {
+				tgtName, tgtRepo := r.Tgt.Host.Name, r.Tgt.Repo
+				plan = (&modelreg.Plan{Faults: []*modelreg.Fault{{At: at, Action: probeFault, Match: func(e *modelreg.Event) bool {
+					return e.Host == tgtName && e.Repo == tgtRepo && e.Kind == "blob" && e.Method == "HEAD"
+				}}}}).Install(r.Tgt.Host)
+			}
 		}})
+		if plan != nil && plan.FiredTotal() > 0 {
+			run.Count("copies_with_one_transient_probe_fault", 1)
+		}
 		run.Eval(1)
 		if r.Err != nil {
 			run.Count("copies_failed", 1)
